@@ -9,7 +9,7 @@ import implsession
 from implenv import res as ires
 
 INFO = {
-    'proof_files': ['Proofs/DecodeProofs.v', 'Proofs/DecodeBasics.v', 'Proofs/DecodeArgs.v', 'Proofs/DecodeSplit.v', 'Proofs/DecodeHeader.v', 'Proofs/DecodeRoundTrip.v'],
+    'proof_files': ['Proofs/DecodeProofs.v', 'Proofs/DecodeBasics.v', 'Proofs/DecodeArgs.v', 'Proofs/DecodeSplit.v', 'Proofs/DecodeHeader.v', 'Proofs/DecodeRoundTrip.v', 'Proofs/DecodeSound.v'],
     'assumptions': [
         'libwayland\'s wl_closure_print is transcribed into WD.Render from libwayland 1.18 (old dialect) and 1.23 + the repo\'s patches (current dialect); libwayland itself is not installed here; the five sample logs in resources/libwayland_debug_logs must decode and re-render to themselves',
         'the regular expressions of parse.py are modelled by hand-written scanners (WD.Decode), validated against Python re differentially, not verified; \\w \\d \\s on non-ASCII text and float() beyond 15 significant digits / exponents are out of model',
